@@ -73,8 +73,54 @@ where
     });
 }
 
+/// exp_biguint on exponents of several 64-bit limbs, zero limbs included (2^64, 3·2^64, 2^128 + 5, …)
+fn big_exponents(e: &mut Emitter, r: &mut Rng, thorough: bool) {
+    use num::BigUint;
+    let shapes: Vec<Vec<u64>> = vec![vec![0, 1], vec![0, 3], vec![5, 0, 1], vec![0, 0, 1], vec![1, 0], vec![0, P - 1], vec![u64::MAX, 0, 2], vec![7], vec![0], vec![]];
+    for rep in 0..(if thorough { 400 } else { 60 }) {
+        let limbs: Vec<u64> = if rep < shapes.len() { shapes[rep].clone() } else {
+            (0..r.range(1, 4)).map(|_| match r.below(4) { 0 => 0, 1 => r.below(4), _ => r.next() }).collect()
+        };
+        let x = if rep % 5 == 0 { *r.pick(&boundary()) } else { r.next() };
+        let power = limbs.iter().rev().fold(BigUint::from(0u32), |acc, &l| (acc << 64) + BigUint::from(l));
+        e.case("exp-biguint", format!("c14 expbig {x} {}", join(limbs.iter())), || F(x).exp_biguint(&power).to_canonical_u64().to_string());
+    }
+}
+
+/// operands of the quadratic / quartic extension product for which the 160-bit delayed-reduction
+/// accumulator's multiplication by W = 7 carries through its whole upper limb: the partial product
+/// t = a₁·b has 7·(t >> 64) within 6 of 2^64 (mod 2^64) and a large low limb
+fn ext_mul_carry_cases(e: &mut Emitter, r: &mut Rng, thorough: bool) {
+    // 7^{-1} mod 2^64
+    let inv7: u64 = 0x6DB6_DB6D_B6DB_6DB7;
+    debug_assert_eq!(inv7.wrapping_mul(7), 1);
+    let mut made = 0;
+    let mut tries = 0;
+    while made < (if thorough { 300 } else { 60 }) && tries < 200_000 {
+        tries += 1;
+        let k = 1 + r.below(6);
+        let t_hi = (0u64.wrapping_sub(k)).wrapping_mul(inv7);          // 7·t_hi ≡ −k (mod 2^64)
+        let b = r.next() | (1 << 63);
+        if (t_hi as u128) >= b as u128 { continue; }
+        let a = ((((t_hi as u128) << 64) + b as u128 - 1) / b as u128) as u64;
+        let t = a as u128 * b as u128;
+        if (t >> 64) as u64 != t_hi { continue; }
+        let lo = t as u64;
+        if ((lo as u128 * 7) >> 64) < k as u128 { continue; }
+        // quadratic: c0 = a0·b0 + 7·a1·b1
+        let (x0, y0) = (r.next(), r.next());
+        ext_ops::<2, plonky2::field::extension::quadratic::QuadraticExtension<F>>(e, "extmul-times7-carry", [x0, a], [y0, b], 1);
+        // quartic: c0 = a0·b0 + 7·(a1·b3 + a2·b2 + a3·b1) with only a1·b3 non-zero
+        ext_ops::<4, plonky2::field::extension::quartic::QuarticExtension<F>>(e, "extmul-times7-carry", [x0, a, 0, 0], [y0, 0, 0, b], 1);
+        made += 1;
+    }
+    e.count(&format!("ext-mul times-7 carry cases made: {made}"));
+}
+
 pub fn emit(e: &mut Emitter, seed: u64, thorough: bool) {
     let mut r = Rng::new(seed);
+    big_exponents(e, &mut r, thorough);
+    ext_mul_carry_cases(e, &mut r, thorough);
     let bd = boundary();
     // 1. all boundary pairs (and a rotating third operand)
     for (i, &a) in bd.iter().enumerate() {
